@@ -61,7 +61,7 @@ def run(tier, seed):
     for z in range(1, 7 if tier == 'quick' else 9):
         T.run('quadtree_grid', {'kind': 'single', 'zoom': z, 'probe_seed': z, 'n_probes': 300 if z < 7 else 150,
                                 'corner_cells': 150 if z < 7 else 60}, key=('single', z))
-    reps = 10 if tier == 'quick' else 150
+    reps = 10 if tier == 'quick' else 400
     for kind in ('uniform', 'clustered', 'boundary', 'same-point', 'outside'):
         for r in range(reps):
             n = rng.choice([0, 1, 5, 20, 80]) if tier == 'quick' else rng.choice([0, 1, 5, 20, 80, 300])
